@@ -20,3 +20,56 @@ def headline_ok(text: str) -> bool:
         and not text.startswith("\n")
         and not text.startswith("*")
     )
+
+
+def only_model_touched(trace: str) -> bool:
+    """No file-system operation of the run concerned anything but the model file (C23)."""
+    return all(item.partition(":")[2] == "model_path" for item in trace.split(";") if item)
+
+
+CACHE = "Path(str)/x/x"        # tempdir / "aas-core-codegen-<version>" / "model-<sha256>.pickle"
+CACHE_DIR = "Path(str)/x"
+TMP = "Path(str)/x/x.tmp-suffix"  # cache_path.with_suffix(".<uuid4>.tmp")
+
+
+def cache_trace_ok(trace: str) -> bool:
+    """The file-system operations of one run, in order, obey the cache protocol of C24:
+
+    * the shared entry is only ever *read* (exists/open-read) or *replaced by rename* of this run's
+      temporary file, and only after that file was completely written (``dump-complete``);
+    * nothing is written in place to the shared entry, the only other writes go to this run's own
+      temporary file (fresh uuid) and to mkdir of the cache directory;
+    * besides, only the model file is read.
+
+    Every prefix of an accepted trace is accepted too (prefix = crash point), so the shared entry is at
+    every instant either absent or a complete pickle.
+    """
+    complete = False
+    for item in [x for x in trace.split(";") if x]:
+        op, _, path = item.partition(":")
+        if path == "model_path":
+            if op not in ("read", "exists", "is_file"):
+                return False
+        elif path == CACHE:
+            if op in ("exists", "open-read"):
+                pass
+            elif op == "rename-to":
+                if not complete:
+                    return False
+            else:
+                return False
+        elif path == CACHE_DIR:
+            if op != "mkdir":
+                return False
+        elif path == TMP:
+            if op == "open-write":
+                complete = False
+            elif op == "dump-complete":
+                complete = True
+            elif op in ("rename-from", "unlink"):
+                pass
+            else:
+                return False
+        else:
+            return False
+    return True
